@@ -1,15 +1,10 @@
-(* C11 - _clean_up_state with the constants of the CURRENT source (Gen/C11Consts.v). *)
+(* C11 - theorems about _clean_up_state with the constants of the CURRENT source
+   (cfg_now / cleanup_now are defined in V2/CleanupRun.v so that the model runs even if a proof breaks). *)
 From Coq Require Import ZArith List String Bool Lia.
-From NG Require Import Gen.C11Consts V2.Cleanup V2.Cleanup_proofs.
+From NG Require Import Gen.C11Consts V2.Cleanup V2.Cleanup_proofs V2.CleanupRun.
 Import ListNotations.
 Open Scope string_scope.
 Open Scope Z_scope.
-
-(* clock ticks = microseconds (datetime resolution) *)
-Definition cfg_now : cfg :=
-  mkCfg (cleanup_age_s * 1000000) cleanup_cmp_gt cleanup_needs_done cleanup_needs_not_activated done_statuses.
-
-Definition cleanup_now : Z -> state -> option state := cleanup cfg_now.
 
 Lemma only_done_now now s s' :
   NoDup (map fst (flows s)) -> cleanup_now now s = Some s' ->
